@@ -629,7 +629,13 @@ fn apply_op(e: Exec, op: &Value) -> Exec {
     }
 }
 
+thread_local! {
+    /// which of (stdout, stderr) the Communicator of the last `communicate` terminator reported as present
+    static LAST_STREAMS: std::cell::Cell<Option<(bool, bool)>> = std::cell::Cell::new(None);
+}
+
 fn run_terminator(e: Exec, term: &str) -> Result<(), PopenError> {
+    LAST_STREAMS.with(|c| c.set(None));
     match term {
         "join" => e.join().map(|_| ()),
         "capture" => e.capture().map(|_| ()),
@@ -664,7 +670,9 @@ fn run_terminator(e: Exec, term: &str) -> Result<(), PopenError> {
         }
         "communicate" => {
             let mut c = e.communicate()?;
-            let _ = c.read();
+            if let Ok((o, er)) = c.read() {
+                LAST_STREAMS.with(|c| c.set(Some((o.is_some(), er.is_some()))));
+            }
             Ok(())
         }
         x => panic!("bad terminator {}", x),
@@ -780,7 +788,8 @@ fn run_builder(v: &Value, out: &mut Vec<String>) {
         }
         let at: i64 = name.strip_prefix("orig@").and_then(|x| x.parse().ok()).unwrap_or(-1);
         out.push(json!({"e":"brun","which":if name == "final" {"final"} else {"orig"},"at":at,"term":t,"ok":ok,"refused":refused,"errkind":errkind,
-            "execargs":execargs,"report":rep}).to_string());
+            "execargs":execargs,"report":rep,
+            "streams":LAST_STREAMS.with(|c| c.get()).map(|(o, e)| json!([true, o, e])).unwrap_or(json!([false, false, false]))}).to_string());
     }
     std::panic::set_hook(hook);
     for k in unset_after {
